@@ -350,15 +350,18 @@ class Histogram1D(ObjectWithBinning, HistogramBase):
             self._get_axis(axis)  # Check that it is valid
         if not np.isscalar(value):
             raise ValueError(f"Non-scalar value for 1D histogram: {value}")
-        ixbin = np.searchsorted(self.bin_left_edges, value, side="right").item()
+        # Edges of a narrower type (float32) would drag the comparisons with a python float down to their precision
+        left_edges = np.asarray(self.bin_left_edges, dtype=float)
+        right_edges = np.asarray(self.bin_right_edges, dtype=float)
+        ixbin = np.searchsorted(left_edges, value, side="right").item()
         if ixbin == 0:
             return -1
         if ixbin == self.bin_count:
-            if value <= self.bin_right_edges[-1]:
+            if value <= right_edges[-1]:
                 return ixbin - 1
             else:
                 return self.bin_count
-        if value < self.bin_right_edges[ixbin - 1]:
+        if value < right_edges[ixbin - 1]:
             return ixbin - 1
         if ixbin == self.bin_count:
             return self.bin_count
